@@ -2,7 +2,7 @@
 //! C10 — the (N)RPN scanner inverts the encoder for the sequences it documents.
 //! C11 — the (N)RPN scanner reports exactly the justified messages.
 
-use crate::explore::{explore, Sys};
+use crate::explore::{cycles_upto2, explore, pump, starts_from, Sys};
 use crate::mon::api;
 use crate::report::Report;
 use crate::scan::*;
@@ -313,13 +313,29 @@ pub fn pn_alphabet(channels: &[u8], values: &[u8], with_polls: bool, tick: Optio
 
 /// a random event of the hostile (N)RPN alphabet
 pub fn random_pn_event(rng: &mut Rng, channels: u8, nvalues: u8, polls: bool, ticks: &[u64]) -> Ev {
-    let c = rng.below(channels as u64) as u8;
-    let v = if nvalues >= 128 {
+    let dict = nvalues == 200;
+    let any_c = rng.below(channels as u64) as u8;
+    let c = if dict && channels > 4 {
+        // manager / member / drum channels of the specs are more likely than the rest
+        *rng.pick(&[0u8, 0, 1, 2, 3, 9, 12, 14, 15, 15, any_c])
+    } else {
+        any_c
+    };
+    let v = if dict {
+        *rng.pick(&crate::util::DICT_VALUES)
+    } else if nvalues >= 128 {
         rng.below(128) as u8
     } else {
         [0u8, 127, 1, 64][rng.below(nvalues as u64) as usize]
     };
     let r = rng.below(if polls { 118 } else { 100 });
+    if dict && (46..=73).contains(&r) {
+        // parameter number bytes from the dictionary (MSB mostly 0, as for the standard RPNs)
+        let cn = [98u8, 99, 100, 101, 100, 101][rng.below(6) as usize];
+        let is_msb = cn == 99 || cn == 101;
+        let nv = if is_msb { *rng.pick(&[0u8, 0, 0, 0x3D, 127, 1]) } else { *rng.pick(&crate::util::DICT_NUMBER_BYTES) };
+        return Ev::cc(c, cn, nv);
+    }
     match r {
         0..=17 => Ev::cc(c, 6, v),
         18..=31 => Ev::cc(c, 38, v),
@@ -365,6 +381,15 @@ pub fn run_c11(cfg: &Cfg, rep: &mut Report) {
         let c2 = [crate::util::rotating_channel(cfg, 5), crate::util::rotating_channel(cfg, 6)];
         setups.push((c2.to_vec(), vec![crate::util::value_pairs(cfg, 0xC11, 4).last().unwrap()[0], 127]));
     }
+    if !cfg.as_c18 {
+        // spec dictionary: standard RPN numbers / significant values, also across a manager and a
+        // member channel
+        for (i, p) in crate::util::dict_pairs(cfg, 2, 1).iter().enumerate() {
+            setups.push((vec![[0u8, 15, 9][i % 3]], vec![p[0], p[1]]));
+        }
+        setups.push((vec![0, 3], vec![0, 6]));
+        setups.push((vec![15, 12], vec![0, 6]));
+    }
     for (chans, values) in setups {
         let alpha = pn_alphabet(&chans, &values, false, None);
         let (st, _) = explore(cfg, PnMon::new(), &alpha, 3_000_000, rep, false);
@@ -384,6 +409,23 @@ pub fn run_c11(cfg: &Cfg, rep: &mut Report) {
             );
         }
     }
+    // repetition workload (counters, epochs, streak heuristics)
+    {
+        let c = crate::util::rotating_channel(cfg, 2);
+        let (x, y, xn, l, m, i) = (Ev::cc(c, 101, 3), Ev::cc(c, 100, 4), Ev::cc(c, 99, 3), Ev::cc(c, 38, 9), Ev::cc(c, 6, 5), Ev::cc(c, 96, 2));
+        let syms = [x, y, xn, l, m, i, Ev::cc(c, 7, 1), Ev::Reset];
+        let starts = starts_from(&PnMon::new(), &[vec![], vec![x], vec![x, y], vec![x, y, l], vec![x, y, l, m]], rep);
+        let tail = [x, y, l, m, i];
+        let units: Vec<Vec<Ev>> = vec![vec![x, y, m], vec![x, y, l, m], vec![x, y, i], vec![l, m], vec![y, x, m]];
+        if cfg.thorough && cfg.release && !cfg.as_c18 {
+            pump(cfg, rep, &starts, &cycles_upto2(&syms, &units), 66_000, &tail, true);
+        } else {
+            pump(cfg, rep, &starts, &cycles_upto2(&syms, &units), cfg.size(20, 300, 1000) as usize, &tail, true);
+            if !cfg.as_c18 {
+                pump(cfg, rep, &starts, &units, 66_000, &tail, false);
+            }
+        }
+    }
     let total = cfg.size(2_000, 12_000_000, 300_000_000);
     par(cfg, rep, |shard, nsh, rep| {
         let mut rng = Rng::derive(cfg.seed, 0xC11_00 + shard as u64);
@@ -393,7 +435,7 @@ pub fn run_c11(cfg: &Cfg, rep: &mut Report) {
         let mut hist_count = 0u64;
         while done < per {
             let len = rng.range(5, 150);
-            let nvalues = *rng.pick(&[2u8, 3, 4, 128]);
+            let nvalues = *rng.pick(&[2u8, 3, 4, 128, 200, 200]);
             let chans = *rng.pick(&[1u8, 1, 2, 3, 16]);
             let mut mon = PnMon::new();
             let mut hist: Vec<Ev> = Vec::with_capacity(len as usize);
@@ -725,6 +767,28 @@ pub fn run_c10(cfg: &Cfg, rep: &mut Report) {
         rep.distinct_nontrivial += units;
         rep.count("units_fed_to_never_fresh_scanner", units);
     });
+    // a very long run of one documented form after a 14-bit message (wrapping counters): the
+    // same 7-bit message encoded and fed 70 000 times must be reported 70 000 times
+    if !cfg.as_c18 {
+        let c = crate::util::rotating_channel(cfg, 4);
+        let mut mon = PnMon::new();
+        let mut hist: Vec<Ev> = Vec::new();
+        let first = PnM { ch: c, number: 1234, value: 9005, registered: false, is14: true, dt: 0 };
+        let evs = crate_encoding(&first, true, rep);
+        feed_unit(&mut mon, &mut hist, &first, &evs, "long-run-prefix", rep);
+        let n = cfg.size(10, 70_000, 140_000);
+        for k in 0..n {
+            let m = PnM { ch: c, number: 1234, value: (k % 128) as u16, registered: false, is14: false, dt: 0 };
+            let evs = crate_encoding(&m, false, rep);
+            let before = rep.violations_total;
+            feed_unit(&mut mon, &mut hist, &m, &evs, "long-run-of-7bit-encodings", rep);
+            if rep.violations_total > before {
+                break;
+            }
+        }
+        rep.evaluations += n;
+        rep.count("long_run_units", n);
+    }
     rep.set_exhaustive(false);
     rep.sample(json!({"prior":"stale data entry LSB from an earlier 14-bit message","unit":"registered_7_bit(ch 3, 129, 1) encoded as B3 65 01 / B3 64 01 / B3 06 01","expected":"None, None, Some(7-bit original)"}));
     rep.sample(json!({"running_form":"x y L M L M","expected":"each pair yields the 14-bit message of that pair"}));
